@@ -111,12 +111,17 @@ def check_case(case):
 
 
 @st.composite
-def cases(draw, fmts, switches):
+def cases(draw, fmts, switches, force_skip_half=False):
     fmt = draw(st.sampled_from(fmts))
+    force_skip = force_skip_half and draw(st.booleans())
     if fmt == "hrs":
         spec = draw(gi.hrs_spec(options=True, even_width="hrs_even_width" in switches, small=draw(st.integers(0, 9)) > 0))
+        if force_skip and "skip" not in spec:
+            spec["skip"] = draw(st.integers(1, 40))
     elif fmt == "max":
         spec = draw(gi.max_spec(options=True, width_mult8="max_width_mult8" in switches))
+        if force_skip and "skip" not in spec:
+            spec["skip"] = draw(st.integers(1, 40))
     elif fmt == "pix":
         spec = draw(gi.pix_spec())
     elif fmt == "mge":
@@ -154,7 +159,7 @@ def campaign(seed, n, fmts, switches=frozenset(), pipes=False):
                    sample={"variant": case["variant"], "spec": {k: v for k, v in spec.items() if k not in ("title", "palette")}})
         check_case(case)
 
-    core.run_hypothesis(body, cases(fmts, switches), seed=seed, max_examples=n, stats=stats)
+    core.run_hypothesis(body, cases(fmts, switches, force_skip_half=pipes), seed=seed, max_examples=n, stats=stats)
     return stats
 
 
@@ -162,7 +167,7 @@ def plan(tier, seed, switches):
     if tier == "quick":
         return [("campaign", [dict(seed=seed * 100 + 1, n=450, fmts=["hrs", "max", "pix"], switches=switches)]
                  + [dict(seed=seed * 100 + 2 + i, n=12, fmts=[f], switches=switches) for i, f in enumerate(["mge", "cm3", "rat", "vef"])]
-                 + [dict(seed=seed * 100 + 9, n=12, fmts=["hrs", "max", "pix", "rat"], switches=switches, pipes=True)])]
+                 + [dict(seed=seed * 100 + 9 + k, n=16, fmts=["hrs", "max", "hrs", "max", "pix", "rat"], switches=switches, pipes=True) for k in range(3)])]
     return [("campaign", [dict(seed=seed * 1000 + k, n=3500, fmts=["hrs", "max", "pix"], switches=switches) for k in range(8)]
              + [dict(seed=seed * 1000 + 10 + i, n=400, fmts=[f], switches=switches) for i, f in enumerate(["mge", "cm3", "rat", "vef"])]
              + [dict(seed=seed * 1000 + 20 + k, n=150, fmts=["hrs", "max", "pix", "rat", "mge", "cm3"], switches=switches, pipes=True) for k in range(4)])]
